@@ -35,7 +35,7 @@ ALL_FEATURES = {
     "array_pop", "early_return", "shadowing", "match_return", "else_if", "assert_stmt", "array_pass", "struct_pass",
     "string_escapes", "effectful_logic", "continue_in_for", "print_enum", "min_max", "array_slice",
     "array_struct", "float_arith", "deep_expr", "array_alias", "str_substring", "char_at", "global_shadow",
-    "unused_results", "long_strings", "self_compare", "tuple_pass", "effectful_args", "shadow_type_change", "array_float", "struct_array_field", "tuple_nested", "fn_returning_composite",
+    "unused_results", "long_strings", "self_compare", "tuple_pass", "effectful_args", "shadow_type_change", "out_of_scope_reference", "array_float", "struct_array_field", "tuple_nested", "fn_returning_composite",
 }
 
 
@@ -63,7 +63,7 @@ def type_str(t):
 
 
 # ----------------------------------------------------------------------------- printers
-PRINT_OPTS = {"postfix_on_right_operand": False}
+PRINT_OPTS = {"postfix_on_right_operand": True, "infix_chains": True, "bare_unary": True}
 PRINT_STATS = {}
 
 def esc_str(b):
@@ -72,7 +72,8 @@ def esc_str(b):
     return b.decode("utf-8")
 
 
-def p_expr(e, style_override=None):
+def p_expr(e, style_override=None, bare=False):
+    """bare=True: the caller is a statement-level position where an infix chain needs no outer parentheses."""
     k = e[0]
     if k == "int":
         return str(e[1])
@@ -91,13 +92,18 @@ def p_expr(e, style_override=None):
             PRINT_STATS["postfix_on_right_operand"] = PRINT_STATS.get("postfix_on_right_operand", 0) + 1
             style = "p"
         if style == "i":
-            return "(" + p_operand_infix(e[2], style_override) + " " + e[1] + " " + p_operand_infix(e[3], style_override) + ")"
+            # a bare unary operator may lead the chain only where no "(" precedes it: "(-a + b)" is the prefix
+            # application of "-" to "a + b" in this language
+            body = p_infix_left(e[2], style_override, bare) + " " + e[1] + " " + p_operand_infix(e[3], style_override)
+            return body if bare else "(" + body + ")"
         return "(" + e[1] + " " + p_expr(e[2], style_override) + " " + p_expr(e[3], style_override) + ")"
     if k == "un":
         style = style_override or e[3]
-        if style == "i":
-            # unary minus on a literal would be folded by the lexer: always parenthesise the operand
-            return "(" + e[1] + " " + p_operand_infix(e[2], style_override) + ")"
+        if style == "i" and e[2][0] == "var" and PRINT_OPTS["bare_unary"]:
+            # `not v` / `-v` without parentheses (only on a plain variable: the lexer folds `-5` into one token and
+            # a postfix form after a unary operator is a separate known parser finding)
+            if bare:
+                return ("not " if e[1] == "not" else "-") + e[2][1]
         return "(" + e[1] + " " + p_expr(e[2], style_override) + ")"
     if k == "call":
         return "(" + " ".join([e[1]] + [p_expr(a, style_override) for a in e[2]]) + ")"
@@ -128,7 +134,18 @@ def p_expr(e, style_override=None):
 
 
 def p_operand_infix(e, so):
-    # operands of infix operators are always atoms or parenthesised forms (both spellings of sub-expressions are parenthesised)
+    # right operands of infix operators are always atoms or parenthesised forms
+    return p_expr(e, so)
+
+
+def p_infix_left(e, so, lead_ok=False):
+    """Left operand of an infix operator: an infix chain continues without parentheses (equal precedence, left to
+    right: a op1 b op2 c == (op2 (op1 a b) c)); a bare unary form binds to its own operand only."""
+    if e[0] == "bin" and (so or e[4]) == "i" and PRINT_OPTS["infix_chains"]:
+        if not (not PRINT_OPTS["postfix_on_right_operand"] and e[3][0] in ("field", "tidx", "enum")):
+            return p_infix_left(e[2], so, lead_ok) + " " + e[1] + " " + p_operand_infix(e[3], so)
+    if e[0] == "un" and (so or e[3]) == "i" and e[2][0] == "var" and PRINT_OPTS["bare_unary"] and lead_ok:
+        return ("not " if e[1] == "not" else "-") + e[2][1]
     return p_expr(e, so)
 
 
@@ -149,6 +166,18 @@ def fmt_float(f):
     return s
 
 
+def bare_ok(e):
+    """Statement-level expression positions print an infix chain without outer parentheses when the AST node says so
+    (style 'i' + the 'bare' marker chosen by the generator: a 6th/5th tuple element)."""
+    if not PRINT_OPTS["infix_chains"]:
+        return False
+    if e[0] == "bin":
+        return len(e) > 5 and e[5] == "bare"
+    if e[0] == "un":
+        return len(e) > 4 and e[4] == "bare"
+    return False
+
+
 def p_block(body, ind, so=None):
     out = []
     for s in body:
@@ -160,15 +189,15 @@ def p_stmt(s, ind, so=None):
     pad = "    " * ind
     k = s[0]
     if k == "let":
-        return ["%slet %s%s: %s = %s" % (pad, "mut " if s[4] else "", s[1], type_str(s[2]), p_expr(s[3], so))]
+        return ["%slet %s%s: %s = %s" % (pad, "mut " if s[4] else "", s[1], type_str(s[2]), p_expr(s[3], so, bare_ok(s[3])))]
     if k == "set":
-        return ["%sset %s %s" % (pad, s[1], p_expr(s[2], so))]
+        return ["%sset %s %s" % (pad, s[1], p_expr(s[2], so, bare_ok(s[2])))]
     if k == "if":
-        out = ["%sif %s {" % (pad, p_expr(s[1], so))] + p_block(s[2], ind + 1, so)
+        out = ["%sif %s {" % (pad, p_expr(s[1], so, bare_ok(s[1])))] + p_block(s[2], ind + 1, so)
         els = s[3]
         while els is not None:
             if len(els) == 1 and els[0][0] == "if" and len(els[0]) > 4 and els[0][4] == "elif":
-                out.append("%s} else if %s {" % (pad, p_expr(els[0][1], so)))
+                out.append("%s} else if %s {" % (pad, p_expr(els[0][1], so, bare_ok(els[0][1]))))
                 out += p_block(els[0][2], ind + 1, so)
                 els = els[0][3]
             else:
@@ -178,7 +207,7 @@ def p_stmt(s, ind, so=None):
         out.append("%s}" % pad)
         return out
     if k == "while":
-        return ["%swhile %s {" % (pad, p_expr(s[1], so))] + p_block(s[2], ind + 1, so) + ["%s}" % pad]
+        return ["%swhile %s {" % (pad, p_expr(s[1], so, bare_ok(s[1])))] + p_block(s[2], ind + 1, so) + ["%s}" % pad]
     if k == "for":
         return ["%sfor %s in (range %s %s) {" % (pad, s[1], p_expr(s[2], so), p_expr(s[3], so))] + \
             p_block(s[4], ind + 1, so) + ["%s}" % pad]
@@ -187,13 +216,13 @@ def p_stmt(s, ind, so=None):
     if k == "continue":
         return [pad + "continue"]
     if k == "return":
-        return [pad + "return" + ("" if s[1] is None else " " + p_expr(s[1], so))]
+        return [pad + "return" + ("" if s[1] is None else " " + p_expr(s[1], so, bare_ok(s[1])))]
     if k == "println":
         return ["%s(println %s)" % (pad, p_expr(s[1], so))]
     if k == "print":
         return ["%s(print %s)" % (pad, p_expr(s[1], so))]
     if k == "assert":
-        return ["%sassert %s" % (pad, p_expr(s[1], so))]
+        return ["%sassert %s" % (pad, p_expr(s[1], so, bare_ok(s[1])))]
     if k == "expr":
         return [pad + p_expr(s[1], so)]
     if k == "match":
@@ -850,6 +879,32 @@ def trace(g, sc, name, t):
     return []
 
 
+def maybe_bare(g, e):
+    """Mark a statement-level infix expression so that the printer omits its outer parentheses."""
+    if e[0] == "bin" and e[4] == "i" and len(e) == 5 and g.b():
+        g.use("bare_infix_chain")
+        return e + ("bare",)
+    if e[0] == "un" and e[3] == "i" and len(e) == 4 and e[2][0] == "var" and g.b():
+        g.use("bare_unary")
+        return e + ("bare",)
+    return e
+
+
+def loop_exit(g, sc, cx_in_for, body, first):
+    """Insert a conditional break / continue somewhere in a loop body (after position `first`)."""
+    if not g.has("break") or not g.chance(1, 2):
+        return
+    which = "break"
+    if g.has("continue") and g.b():
+        if cx_in_for and not g.gate("continue_in_for"):
+            which = "break"
+        else:
+            which = "continue"
+    pos = g.i(first, len(body))
+    body.insert(pos, ("if", maybe_bare(g, gen_bool_pure(g, sc, 1)), [(which,)], None))
+    g.use(which + ("_in_for" if cx_in_for else "_in_while"))
+
+
 def gen_let(g, sc, cx, out):
     ts = value_types(g)
     t = g.pick(ts)
@@ -875,7 +930,7 @@ def gen_let(g, sc, cx, out):
         mut = g.has("array_mut") and g.chance(2, 3)
         if e[0] == "arr":
             meta["minlen"] = len(e[2])
-    out.append(("let", name, t, e, mut))
+    out.append(("let", name, t, maybe_bare(g, e), mut))
     sc.vars[name] = (t, mut, meta)
     g.use("let")
     out += trace(g, sc, name, t)
@@ -900,7 +955,7 @@ def gen_set(g, sc, cx, out):
     if not muts:
         return
     n, v = g.pick(muts)
-    out.append(("set", n, gen_expr(g, sc, v[0], g.i(0, 2))))
+    out.append(("set", n, maybe_bare(g, gen_expr(g, sc, v[0], g.i(0, 2)))))
     g.use("set")
     out += trace(g, sc, n, v[0])
 
@@ -939,7 +994,7 @@ def child_scope(sc):
 
 
 def gen_if(g, sc, cx, out, budget):
-    c = gen_bool(g, sc, g.i(1, 2))
+    c = maybe_bare(g, gen_bool(g, sc, g.i(1, 2)))
     then = gen_block(g, child_scope(sc), Ctx(cx.ret, cx.loop_depth, cx.in_for, cx.depth + 1, cx.fuel), budget // 2)
     els = None
     if g.b():
@@ -966,7 +1021,8 @@ def gen_while(g, sc, cx, out, budget):
     cond = ("bin", "<", ("var", w), ("int", bound), g.style())
     if g.chance(1, 4):
         cond = ("bin", "and", cond, gen_bool_pure(g, sc, 1), g.style())
-    out.append(("while", cond, body))
+    loop_exit(g, sc, False, body, 1)
+    out.append(("while", maybe_bare(g, cond), body))
     g.use("while")
 
 
@@ -977,6 +1033,9 @@ def gen_for(g, sc, cx, out, budget):
     inner = child_scope(sc)
     inner.vars[v] = ("int", False, {})
     body = gen_block(g, inner, Ctx(cx.ret, cx.loop_depth + 1, True, cx.depth + 1, cx.fuel), budget // 2)
+    hdr = child_scope(sc)
+    hdr.vars[v] = ("int", False, {})
+    loop_exit(g, hdr, True, body, 0)
     out.append(("for", v, ("int", lo), ("int", hi), body))
     g.use("for")
 
@@ -1060,6 +1119,10 @@ def gen_block(g, sc, cx, budget):
             gen_fn_let(g, sc, cx, out)
         elif k == 19 and g.has("assert_stmt"):
             out.append(("assert", ("bin", "==", ("int", 1), ("int", 1), g.style())))
+        elif k == 20 and g.has("for") and cx.depth < 3 and cx.loop_depth < 2 and budget >= 2:
+            gen_for(g, sc, cx, out, budget)
+        elif k == 21 and g.has("while") and cx.depth < 3 and cx.loop_depth < 2 and budget >= 2:
+            gen_while(g, sc, cx, out, budget)
         else:
             gen_let(g, sc, cx, out)
     return out
@@ -1114,7 +1177,7 @@ def gen_function(g, idx, gscope):
             inner.append(("return", ("var", r)))
         body.append(("if", ("bin", ">", ("var", "fuel"), ("int", 0), g.style()), inner, None))
         g.use("recursion")
-    body.append(("return", gen_expr(g, sc, ret, g.i(0, 2))))
+    body.append(("return", maybe_bare(g, gen_expr(g, sc, ret, g.i(0, 2)))))
     f["body"] = body
     gscope.cur_fn = None
     return f
